@@ -17,6 +17,7 @@ the database after the call: 'd' rows added/changed, 'del' URLs gone, 'dup' dupl
 in id order, 'hn' host names in id order, 'fl' queued_files [[id, queued_url_id, status]..], 'qc' wrapper counter.
 """
 import os
+import signal
 import shutil
 import tempfile
 
@@ -40,6 +41,17 @@ _SQL_ROWS = text(
     'left join url_strings r on r.id = q.root_url_string_id order by q.id')
 _SQL_HOSTS = text('select hostname from hostnames order by id')
 _SQL_FILES = text('select id, queued_url_id, status from queued_files order by id')
+
+
+class Hang(BaseException):
+    """A table call did not return within the watchdog time (recorded as an observation, never a stuck check)."""
+
+
+def _alarm(signum, frame):
+    raise Hang()
+
+
+WATCHDOG_S = 30
 
 
 class BadResult(Exception):
@@ -129,7 +141,9 @@ class Runner(object):
         self.dir = None
         self.path = ':memory:'
         if mode in ('disk', 'wrapper-disk'):
-            self.dir = tempfile.mkdtemp(prefix='c14_')
+            # a memory-backed file system when there is one: same SQLite code path (file, WAL, locks), cheap fsync
+            base = '/dev/shm' if os.path.isdir('/dev/shm') and os.access('/dev/shm', os.W_OK) else None
+            self.dir = tempfile.mkdtemp(prefix='c14_', dir=base)
             self.path = os.path.join(self.dir, 'table.db')
         self.events = []
         self.prev = {}
@@ -296,9 +310,17 @@ class Runner(object):
             return None
         ev = dict(o)
         x = None
+        old = signal.signal(signal.SIGALRM, _alarm)
+        signal.setitimer(signal.ITIMER_REAL, WATCHDOG_S)
         try:
-            rows, n, urls = self._call(o)
-            k = 'ok'
+            try:
+                rows, n, urls = self._call(o)
+                k = 'ok'
+            finally:
+                signal.setitimer(signal.ITIMER_REAL, 0)
+                signal.signal(signal.SIGALRM, old)
+        except Hang:
+            k, rows, n, urls, x = 'crash', [], 0, [], 'Hang'
         except NotFound:
             k, rows, n, urls = 'notfound', [], 0, []
         except BadResult as e:
